@@ -26,7 +26,7 @@
 (* replaces.  Checked for every small configuration of terms (including    *)
 (* the empty term), postings, deletions and segments.                      *)
 (***************************************************************************)
-EXTENDS Integers, Sequences, FiniteSets, TLC, SequencesExt
+EXTENDS Integers, Sequences, FiniteSets, TLC, SequencesExt, Json
 
 CONSTANTS Terms,         \* subset of 0..k; 0 stands for the empty term
           SegDocs,       \* sequence: number of documents of each input segment
@@ -173,7 +173,26 @@ OneHitNormSet == Done => \A k \in DOMAIN out : out[k].onehit => out[k].norm1 # 0
 
 AllRight == TermsRight /\ PostingsRight /\ ChunksRight /\ OneHitNormSet
 
+-----------------------------------------------------------------------------
+(* E2: random configurations for the real merger (the configuration is drawn by the first step: the simulator
+   computes the initial states only once) *)
+Pick(S) == RandomElement(S)
+RandomCfg(dummy) ==
+    [post  |-> [s \in Segs |-> [t \in Terms |-> [d \in DocsOf(s) |-> Pick(Attr \cup {Absent, Absent})]]],
+     drops |-> [s \in Segs |-> Pick(SUBSET DocsOf(s))]]
+GenInit == /\ cfg = [post |-> <<>>, drops |-> <<>>]
+           /\ pos = 1 /\ prev = Nil /\ roar = {} /\ entries = <<>> /\ last = ZeroLast /\ chunk = "none" /\ out = <<>>
+GenNext == IF cfg.post = <<>>
+           THEN cfg' = RandomCfg(out) /\ UNCHANGED <<pos, prev, roar, entries, last, chunk, out>>
+           ELSE Next
+GenSpec == GenInit /\ [][GenNext]_vars
+Emit == (cfg.post # <<>> /\ Done) =>
+            PrintT(<<"BEHAVIOUR", ToJson([post |-> cfg.post, drops |-> [s \in Segs |-> SetToSortSeq(cfg.drops[s], <)],
+                                           segdocs |-> SegDocs,
+                                           written |-> [k \in DOMAIN out |-> [term |-> out[k].term, onehit |-> out[k].onehit]]])>>)
+
 McSegDocs21 == <<2, 1>>
+McSegDocs323 == <<3, 2, 3>>
 McSegDocs22 == <<2, 2>>
 McSegDocs111 == <<1, 1, 1>>
 
